@@ -544,5 +544,114 @@ theorem sortByName_sorted {β : Type} (l : List (String × β)) : (sortByName l)
   | nil => simp [sortByName]
   | cons p l ih => exact insertByName_sorted p _ ih
 
+/-! ### `_setup`: rows of the stacked gate tensors -/
+
+theorem mem_foldl_firstCome (l : List GateDesc) (acc : List ℕ) (x : ℕ) :
+    x ∈ l.foldl (fun acc g => if acc.contains g.objId then acc else acc ++ [g.objId]) acc
+      ↔ x ∈ acc ∨ ∃ g ∈ l, g.objId = x := by
+  induction l generalizing acc with
+  | nil => simp
+  | cons g l ih =>
+    rw [List.foldl_cons, ih]
+    by_cases h : acc.contains g.objId = true
+    · rw [if_pos h]
+      have hm : g.objId ∈ acc := by simpa using h
+      constructor
+      · rintro (h1 | ⟨g', hg', rfl⟩)
+        · exact Or.inl h1
+        · exact Or.inr ⟨g', List.mem_cons_of_mem _ hg', rfl⟩
+      · rintro (h1 | ⟨g', hg', rfl⟩)
+        · exact Or.inl h1
+        · rcases List.mem_cons.1 hg' with rfl | hg'
+          · exact Or.inl hm
+          · exact Or.inr ⟨g', hg', rfl⟩
+    · rw [if_neg h]
+      constructor
+      · rintro (h1 | ⟨g', hg', rfl⟩)
+        · rcases List.mem_append.1 h1 with h1 | h1
+          · exact Or.inl h1
+          · exact Or.inr ⟨g, List.mem_cons_self, (List.mem_singleton.1 h1).symm⟩
+        · exact Or.inr ⟨g', List.mem_cons_of_mem _ hg', rfl⟩
+      · rintro (h1 | ⟨g', hg', rfl⟩)
+        · exact Or.inl (List.mem_append_left _ h1)
+        · rcases List.mem_cons.1 hg' with rfl | hg'
+          · exact Or.inl (List.mem_append_right _ (List.mem_singleton.2 rfl))
+          · exact Or.inr ⟨g', hg', rfl⟩
+
+theorem mem_firstComeIds (gs : List GateDesc) (nm : String) (g : GateDesc) (hg : g ∈ gs)
+    (ht : g.trainable = true) (hp : g.placeholder = false) (hn : g.name = nm) : g.objId ∈ firstComeIds gs nm := by
+  unfold firstComeIds
+  rw [mem_foldl_firstCome]
+  refine Or.inr ⟨g, ?_, rfl⟩
+  simp [List.mem_filter, hg, ht, hp, hn]
+
+theorem mem_placeholderPositions (gs : List GateDesc) (nm : String) (i : ℕ) (hi : i < gs.length)
+    (hp : gs[i].placeholder = true) (hn : gs[i].name = nm) : i ∈ placeholderPositions gs nm := by
+  unfold placeholderPositions
+  rw [List.mem_map]
+  refine ⟨(gs[i], i), ?_, rfl⟩
+  rw [List.mem_filter]
+  refine ⟨?_, by simp [hp, hn]⟩
+  rw [List.mem_zipIdx_iff_getElem?]
+  simp [hi]
+
+/-- **the index maps of `_setup` address distinct rows**: two different gates read the same row of the same stacked tensor
+only if both are trainable (non-placeholder) gates that are the *same object* (a shared parameter). -/
+theorem slotOf_injective (gs : List GateDesc) (i j : ℕ) (hi : i < gs.length) (hj : j < gs.length) (p : String × ℕ)
+    (h1 : slotOf gs i = some p) (h2 : slotOf gs j = some p) :
+    i = j ∨ (gs[i].placeholder = false ∧ gs[j].placeholder = false ∧ gs[i].objId = gs[j].objId) := by
+  unfold slotOf at h1 h2
+  rw [List.getElem?_eq_getElem hi] at h1
+  rw [List.getElem?_eq_getElem hj] at h2
+  simp only at h1 h2
+  by_cases pi : gs[i].placeholder = true
+  · rw [if_pos pi] at h1
+    by_cases pj : gs[j].placeholder = true
+    · rw [if_pos pj] at h2
+      left
+      have e := h1.trans h2.symm
+      simp only [Option.some.injEq, Prod.mk.injEq] at e
+      obtain ⟨en, er⟩ := e
+      rw [← en] at er
+      have er' : (placeholderPositions gs gs[i].name).idxOf i = (placeholderPositions gs gs[i].name).idxOf j := by omega
+      exact (List.idxOf_inj (mem_placeholderPositions gs _ i hi pi rfl)).1 er'
+    · rw [if_neg pj] at h2
+      by_cases tj : gs[j].trainable = true
+      · rw [if_pos tj] at h2
+        exfalso
+        have e := h1.trans h2.symm
+        simp only [Option.some.injEq, Prod.mk.injEq] at e
+        obtain ⟨en, er⟩ := e
+        have hm := mem_firstComeIds gs gs[i].name gs[j] (List.getElem_mem hj) tj (by simpa using pj) en.symm
+        have := List.idxOf_lt_length_iff.2 hm
+        rw [en] at er this
+        omega
+      · rw [if_neg tj] at h2; exact absurd h2 (by simp)
+  · rw [if_neg pi] at h1
+    by_cases ti : gs[i].trainable = true
+    · rw [if_pos ti] at h1
+      by_cases pj : gs[j].placeholder = true
+      · rw [if_pos pj] at h2
+        exfalso
+        have e := h1.trans h2.symm
+        simp only [Option.some.injEq, Prod.mk.injEq] at e
+        obtain ⟨en, er⟩ := e
+        have hm := mem_firstComeIds gs gs[j].name gs[i] (List.getElem_mem hi) ti (by simpa using pi) en
+        have := List.idxOf_lt_length_iff.2 hm
+        rw [← en] at er this
+        omega
+      · rw [if_neg pj] at h2
+        by_cases tj : gs[j].trainable = true
+        · rw [if_pos tj] at h2
+          right
+          refine ⟨by simpa using pi, by simpa using pj, ?_⟩
+          have e := h1.trans h2.symm
+          simp only [Option.some.injEq, Prod.mk.injEq] at e
+          obtain ⟨en, er⟩ := e
+          rw [← en] at er
+          exact (List.idxOf_inj (mem_firstComeIds gs _ gs[i] (List.getElem_mem hi) ti (by simpa using pi) rfl)).1 er
+        · rw [if_neg tj] at h2; exact absurd h2 (by simp)
+    · rw [if_neg ti] at h1; exact absurd h1 (by simp)
+
 end Backward
 end Numqi
